@@ -11,6 +11,7 @@ mod c11;
 mod c12;
 mod c13;
 mod c14;
+mod c15;
 mod chan;
 mod c19;
 mod smoke;
@@ -31,6 +32,7 @@ pub fn build(prop: &str, tier: &str) -> Vec<Scenario> {
         "C12" => c12::build(quick),
         "C13" => c13::build(quick),
         "C14" => c14::build(quick),
+        "C15" => c15::build(quick),
         "C19" => c19::build(quick),
         _ => vec![],
     }
